@@ -564,8 +564,9 @@ pub enum Expect {
     Either(Vec<u8>, String),
     /// the library itself panics for these lines and settings: not C12's business, not judged
     LibraryPanics(String),
-    /// stdout refused the bytes (ENOSPC / EIO): whatever else happens, the program must not report success
-    NoSilentSuccess,
+    /// stdout refused bytes (ENOSPC / EIO): the program must not report success — unless it got the whole faithful
+    /// result (these bytes) accepted after all, by writing again
+    NoSilentSuccess(Option<Vec<u8>>),
     /// outside the property (probe only): logged, never judged
     NotJudged(String),
 }
@@ -582,11 +583,18 @@ pub fn expectation(case: &Case, o: &Observed) -> Expect {
     // that was printed. A device that refuses the bytes (ENOSPC, EIO) and a program that then reports success has
     // lost the result silently. (EPIPE is left alone: leaving quietly when the reader has gone is a common convention.)
     if o.hard_err.iter().any(|(c, e)| c == "w1" && (*e == 28 || *e == 5)) {
-        return Expect::NoSilentSuccess;
+        return match expectation_without_write_failures(case, o) {
+            Expect::Output(b) | Expect::Either(b, _) => Expect::NoSilentSuccess(Some(b)),
+            _ => Expect::NoSilentSuccess(None),
+        };
     }
     if o.hard_err.iter().any(|(c, _)| c == "w1" || c == "w2") {
         return Expect::NotJudged("stdout/stderr failed hard".into());
     }
+    expectation_without_write_failures(case, o)
+}
+
+fn expectation_without_write_failures(case: &Case, o: &Observed) -> Expect {
     if case.tty != 0 {
         return Expect::NotJudged("stdin is a terminal".into());
     }
@@ -788,8 +796,8 @@ pub fn judge(case: &Case, o: &Observed) -> Verdict {
         Ok(())
     };
     match &expect {
-        Expect::NoSilentSuccess => {
-            if o.exit_code == Some(0) {
+        Expect::NoSilentSuccess(faithful) => {
+            if o.exit_code == Some(0) && faithful.as_ref() != Some(&o.stdout_accepted) {
                 v("result_lost_but_exit_zero", format!("stdout refused the bytes ({:?}) and the program exited 0", o.hard_err), &expect)
             } else {
                 Verdict { class: None, detail: String::new(), expect }
